@@ -21,7 +21,7 @@ class C08(Check):
         ds = DS.DESIGNS if self.tier != 'quick' else [[DS.D_TREE, DS.D_SEM], [DS.D_ZOO], [DS.D_GENERIC, DS.D_RECORDS]][self.seed % 3]
         ps = [CursorQueries('forward: cursor -> entity -> references contain the cursor', ds, 'C08', required=('compared', 'spelling compared', 'cursor on an entity', 'cursor on nothing'),
                             window=30 if self.tier == 'quick' else None, window_at=self.seed // 3),
-              RefsBack('back: reference position -> cursor inside -> same entity or counterpart', ds, required=('compared',) + (('counterpart (declaration/definition or instance)',) if self.tier != 'quick' else ()))]
+              RefsBack('back: reference position -> cursor inside -> same entity or counterpart', ds, stride=3 if self.tier == 'quick' else 1, offset=self.seed // 3, required=('compared',) + (('counterpart (declaration/definition or instance)',) if self.tier != 'quick' else ()))]
         self._parts = ps
         return ps
 
